@@ -295,7 +295,7 @@ def cosim_one(args):
         out['results'] = {k: v for k, v in results.items()}
         out['closed_flags'] = [c.is_closed for c in chans] + [conn.is_closed]
 
-    ctx = vrt.run_scenario(scenario, refbroker.factory(policy), seed=seed, p_preempt=0.15, p_jump=0.1,
+    ctx = vrt.run_scenario(scenario, refbroker.factory(policy), seed=seed, p_stall=(0.4 if seed % 4 == 2 else 0.0), p_preempt=0.15, p_jump=0.1,
                            fair_time=(seed % 2 == 1), repo_path=str(common.REPO))
     out['abort'] = ctx.sched.abort_reason
     out['preemptions'] = ctx.sched.preemptions
